@@ -13,8 +13,14 @@ import Grass.Proto
   helpers (`mapM'`, `forEachM`), so fuel is only consumed by AST nesting depth, call depth and
   `@while` iterations.  `C03_fuel_mono` (GrassProofs/C03.lean) follows from monotonicity of `stepF`.
 
-  Value domain (self-contained; no units, colours or calculations): exact rationals, strings
+  Value domain (self-contained; no colours or calculations): exact rationals, strings
   (quoted flag), booleans, null, lists (separator, brackets), maps.
+  Round 3 (growth): numbers WITH UNITS (`Value.dim`, unit algebra written from
+  value/sass_number.rs `multiply_units` and evaluate/bin_op.rs, for a set of pairwise inconvertible
+  unit names), division (`/` where Sass divides, `math.div`), `%`/comparison/equality of such
+  numbers, incompatible-unit errors; interpolation of every value (`Value::unquote` + `to_css`),
+  interpolated property names; the meta built-ins `inspect`, `unit`, `unitless`,
+  `variable-exists`, `global-variable-exists`, `function-exists`, `mixin-exists`.
 -/
 namespace Grass.Eval
 
@@ -36,6 +42,11 @@ inductive Value where
       identity of the call that created it (reading the keywords of that very list waives the
       "No argument named" error). -/
   | arglist (elems : List Value) (sep : Sep) (kw : List (String × Value)) (id : Nat)
+  /-- A number WITH units (grass `Value::Dimension` whose `unit` is not `Unit::None`,
+      value/sass_number.rs:17): numerator and denominator unit names, not both empty
+      (`Unit::new`, unit/mod.rs:139: no units = `Unit::None` = `Value.num`; one numerator unit = that
+      unit; anything else = `Unit::Complex`). -/
+  | dim (q : Rat) (numer denom : List String)
 deriving Inhabited
 
 def Value.truthy : Value → Bool
@@ -56,6 +67,9 @@ def Value.eq : Value → Value → Bool
   | .arglist as sa _ _, .list bs sb bb => sa == sb && !bb && eqList as bs
   | .list as sa ba, .arglist bs sb _ _ => sa == sb && !ba && eqList as bs
   | .map as, .map bs => eqPairs as bs
+  -- sass_number.rs:233 `PartialEq`: not comparable, or exactly one side unitless → unequal; for the
+  -- modelled (pairwise inconvertible) unit names comparable = same unit, no conversion
+  | .dim a n d, .dim b n' d' => a == b && n == n' && d == d'
   | _, _ => false
 def eqList : List Value → List Value → Bool
   | [], [] => true
@@ -80,6 +94,81 @@ def allBlank : List Value → Bool
   | [] => true
   | v :: vs => v.isBlank && allBlank vs
 end
+
+/-! ### units (unit/mod.rs, value/sass_number.rs) -/
+
+/-- The unit names of the model.  They are pairwise INCONVERTIBLE: `conversion_factor(a, b)`
+    (sass_number.rs:23) is `Some(1.0)` for `a == b` and `None` otherwise (px is the only absolute
+    length here, s the only time, deg the only angle; em/rem/vw/%/fr convert to nothing), and
+    `Unit::comparable` (unit/mod.rs:169) holds exactly for equal units or when one is `Unit::None`.
+    Numbers in other units (cm, ms, …: real conversion factors) are outside the model: the driver
+    does not read them. -/
+def knownUnits : List String := ["px", "em", "rem", "%", "s", "deg", "vw", "fr"]
+
+/-- `Unit::new` (unit/mod.rs:139). -/
+def mkNum (q : Rat) (n d : List String) : Value :=
+  if n.isEmpty && d.isEmpty then .num q else .dim q n d
+
+/-- A number as value and (numerator, denominator) units (`Unit::numer_and_denom`, unit/mod.rs:151). -/
+def Value.asNum : Value → Option (Rat × List String × List String)
+  | .num q => some (q, [], [])
+  | .dim q n d => some (q, n, d)
+  | _ => none
+
+/-- `Unit::is_complex` (unit/mod.rs:165) on the (numerator, denominator) form. -/
+def unitsComplex (n d : List String) : Bool := !(d.isEmpty && n.length ≤ 1)
+
+/-- `impl Display for Unit` (unit/mod.rs:291-326). -/
+def unitText (n d : List String) : String :=
+  let nr := "*".intercalate n
+  let dr := "*".intercalate d
+  if d.isEmpty then nr
+  else if n.isEmpty && d.length == 1 then dr ++ "^-1"
+  else if n.isEmpty then "(" ++ dr ++ ")^-1"
+  else nr ++ "/" ++ dr
+
+/-- `Unit::comparable` (unit/mod.rs:169) for the modelled units. -/
+def unitsComparable (n1 d1 n2 d2 : List String) : Bool :=
+  (n2.isEmpty && d2.isEmpty) || (n1.isEmpty && d1.isEmpty) || (n1 == n2 && d1 == d2)
+
+/-- `retain` with the `has_removed` flag (sass_number.rs:95-107): drop the first unit of `l` that
+    converts to `u` (for the modelled units: equals `u`). -/
+def removeFirst (u : String) : List String → Option (List String)
+  | [] => none
+  | x :: xs => if x == u then some xs else (removeFirst u xs).map (x :: ·)
+
+/-- One cancellation loop of `multiply_units` (sass_number.rs:91-111 and :114-133): every numerator
+    unit removes one matching denominator unit or is kept.  -> (kept numerators, remaining denominators) -/
+def cancelLoop : List String → List String → List String × List String
+  | [], ds => ([], ds)
+  | u :: us, ds =>
+    match removeFirst u ds with
+    | some ds' => cancelLoop us ds'
+    | none => ((u :: (cancelLoop us ds).1), (cancelLoop us ds).2)
+
+/-- `are_any_convertible` (unit/mod.rs:113). -/
+def anyShared (a b : List String) : Bool := a.any (b.contains ·)
+
+/-- `SassNumber::multiply_units` (sass_number.rs:55-142) on (numerator, denominator) lists; all
+    conversion factors are 1 for the modelled units, so the numeric value is not touched. -/
+def multiplyUnits (n1 d1 n2 d2 : List String) : List String × List String :=
+  if n1.isEmpty && d2.isEmpty && !anyShared d1 n2 then (n2, d1)
+  else if n1.isEmpty && d1.isEmpty then (n2, d2)
+  else if !n1.isEmpty && n2.isEmpty && (d2.isEmpty || (d1.isEmpty && !anyShared n1 d2)) then (n1, d2)
+  else
+    ((cancelLoop n1 d2).1 ++ (cancelLoop n2 d1).1, (cancelLoop n2 d1).2 ++ (cancelLoop n1 d2).2)
+
+/-- Units of a product (bin_op.rs:360 / `impl Mul`, sass_number.rs:331). -/
+def mulUnits (n1 d1 n2 d2 : List String) : List String × List String :=
+  if n2.isEmpty && d2.isEmpty then (n1, d1) else multiplyUnits n1 d1 n2 d2
+
+/-- Units of a quotient (bin_op.rs:459 / `impl Div`, sass_number.rs:346: multiply by the inverted unit). -/
+def divUnits (n1 d1 n2 d2 : List String) : List String × List String :=
+  if n2.isEmpty && d2.isEmpty then (n1, d1) else multiplyUnits n1 d1 d2 n2
+
+/-- Units of a sum, difference or remainder of comparable numbers (bin_op.rs:83-107, :516-522). -/
+def addUnits (n1 d1 n2 d2 : List String) : List String × List String :=
+  if n1 == n2 && d1 == d2 then (n1, d1) else if n1.isEmpty && d1.isEmpty then (n2, d2) else (n1, d1)
 
 /-! ### printing -/
 
@@ -114,10 +203,23 @@ def fmtNum (q : Rat) : Option String :=
 def plainText (s : String) : Bool :=
   s.toList.all fun c => c.toNat ≥ 32 && c.toNat < 127 && c != '"' && c != '\'' && c != '\\'
 
+/-- An UNQUOTED string is printed as it is, so it may also contain double quotes (they arise from
+    the known finding N5, `null + "quoted"`). -/
+def plainTextU (s : String) : Bool :=
+  s.toList.all fun c => c.toNat ≥ 32 && c.toNat < 127 && c != '\'' && c != '\\'
+
+/-- The strings the model prints, by quotedness. -/
+def printable (s : String) (quoted : Bool) : Bool := if quoted then plainText s else plainTextU s
+
 inductive PrintErr where
   | invalidCss      -- "… isn't a valid CSS value."
   | unsupported
 deriving DecidableEq, Repr
+
+/-- CSS text of a number with units (serializer.rs:543-565): complex units are rejected. -/
+def dimCss (q : Rat) (n d : List String) : Except PrintErr String :=
+  if unitsComplex n d then .error .invalidCss else
+  match fmtNum q with | some s => .ok (s ++ unitText n d) | none => .error .unsupported
 
 def sepText : Sep → String
   | .comma => ", "
@@ -127,7 +229,7 @@ mutual
 /-- Conversion to CSS text (declaration values, `@warn`, string concatenation, interpolation). -/
 def Value.toCss : Value → Except PrintErr String
   | .num q => match fmtNum q with | some s => .ok s | none => .error .unsupported
-  | .str s q => if !plainText s then .error .unsupported else .ok (if q then "\"" ++ s ++ "\"" else s)
+  | .str s q => if !printable s q then .error .unsupported else .ok (if q then "\"" ++ s ++ "\"" else s)
   | .bool b => .ok (if b then "true" else "false")
   | .null => .ok ""
   | .list es sep br =>
@@ -143,6 +245,8 @@ def Value.toCss : Value → Except PrintErr String
     match toCssList es with
     | .ok parts => .ok ((sepText sep).intercalate parts)
     | .error e => .error e
+  -- serializer.rs:551: a number with complex units "isn't a valid CSS value"
+  | .dim q n d => dimCss q n d
 /-- Texts of the non-blank elements.  (An empty argument list nested in a list is outside the
     model: grass does not treat it as blank.) -/
 def toCssList : List Value → Except PrintErr (List String)
@@ -168,7 +272,7 @@ mutual
 /-- `inspect` text (`@debug`, `@error`). -/
 def Value.inspect : Value → Except PrintErr String
   | .num q => match fmtNum q with | some s => .ok s | none => .error .unsupported
-  | .str s q => if !plainText s then .error .unsupported else .ok (if q then "\"" ++ s ++ "\"" else s)
+  | .str s q => if !printable s q then .error .unsupported else .ok (if q then "\"" ++ s ++ "\"" else s)
   | .bool b => .ok (if b then "true" else "false")
   | .null => .ok "null"
   | .list es sep br =>
@@ -191,6 +295,7 @@ def Value.inspect : Value → Except PrintErr String
       let body := (sepText sep).intercalate parts ++ (if single then "," else "")
       .ok (if single then "(" ++ body ++ ")" else body)
     | .error e => .error e
+  | .dim q n d => match fmtNum q with | some s => .ok (s ++ unitText n d) | none => .error .unsupported
 /-- (An argument list nested in another list is outside the model: grass never parenthesises it.) -/
 def inspectList (sep : Sep) : List Value → Except PrintErr (List String)
   | [] => .ok []
@@ -219,6 +324,7 @@ end
 
 inductive BinOp where
   | add | sub | mul | mod | eq | ne | lt | gt | le | ge | and | or
+  | div      -- `/` where Sass divides (parse/value.rs:532: not a slash of two number literals), `math.div`
 deriving DecidableEq, Repr
 
 inductive Expr where
@@ -247,6 +353,7 @@ deriving Inhabited
 
 inductive Stmt where
   | decl (prop : String) (e : Expr)
+  | declI (prop : List (String × Option Expr)) (e : Expr)     -- interpolated property name
   | rule (sel : String) (body : List Stmt)
   | var (n : String) (e : Expr) (glob dflt : Bool)
   | ifs (clauses : List (Expr × List Stmt)) (els : Option (List Stmt))
@@ -333,11 +440,17 @@ structure Dev where
       its quotes.  (`@error` keeps `inspect`, quotes included — dart-sass does too — and is not
       affected by this switch.) -/
   messageKeepsQuotes : Bool := false
+  /-- N5 (found in round 3, repaired in /repo by 8433dfd; kept as an as-found switch with its witness): `null + "foo"` is the UNQUOTED string whose text is `"foo"` WITH
+      the quote characters (bin_op.rs:61-66 takes `right.to_css_string()` and `QuoteKind::None`);
+      the Sass rule (`Value.plus`: `SassString(toCssString() + other.text, quotes: other.hasQuotes)`)
+      gives the quoted string `foo`. -/
+  nullPlusQuotedKeepsQuotes : Bool := false
 deriving Repr, DecidableEq, Inhabited
 
 def Dev.spec : Dev := {}
-def Dev.now : Dev := { emptyListDeclDropped := true }
-def Dev.asFound : Dev := { emptyListDeclDropped := true, restAlwaysComma := true, messageKeepsQuotes := true }
+def Dev.now : Dev := { emptyListDeclDropped := true }   -- N5 repaired in /repo (8433dfd): `now` follows the Sass rule again
+def Dev.asFound : Dev := { emptyListDeclDropped := true, restAlwaysComma := true, messageKeepsQuotes := true,
+                           nullPlusQuotedKeepsQuotes := true }
 
 structure Ctx where
   dev : Dev
@@ -352,6 +465,7 @@ inductive Err where
   | missingArgument | tooManyArguments | noArgumentNamed | passedBothWays
   | noReturn | invalidCss | undefinedOperation | notANumber | notAnInteger
   | userError | declOutsideRule | noContentAccepted | duplicateKey | indexOutOfBounds
+  | incompatibleUnits      -- "Incompatible units a and b."
   | staticError            -- rejected by the parser: @return outside @function, …
   | unsupported            -- outside the model: the case is dropped, never guessed
 deriving DecidableEq, Repr, Inhabited
@@ -463,19 +577,35 @@ def newFrame : M Nat := fun st => .ok st.heap.size { st with heap := st.heap.pus
 def exactDouble (q : Rat) : Bool :=
   q.num.natAbs < 9007199254740992 && q.den < 9007199254740992 && (q.den &&& (q.den - 1)) == 0
 
-def numOp (op : BinOp) (a b : Rat) : Option Value :=
-  if !(exactDouble a && exactDouble b) then none else
-  let guard (v : Rat) : Option Value := if exactDouble v then some (.num v) else none
+/-- At most 10 decimals (the denominator divides 2^10): quotients outside are not printed exactly
+    and `==`/`<` on them are fuzzy in grass (value/number.rs); outside the model. -/
+def shortDyadic (q : Rat) : Bool := exactDouble q && q.den ≤ 1024
+
+/-- Arithmetic and comparison of two numbers `x n1/d1`, `y n2/d2` (evaluate/bin_op.rs: add :68-108,
+    sub :213-253, mul :350-379, div :458-478, rem :506-528; value/mod.rs:343 `cmp`).  `+ - % < > <= >=`
+    demand comparable units ("Incompatible units"), `*` and `/` combine them (`multiply_units`). -/
+def numBin (op : BinOp) (x : Rat) (n1 d1 : List String) (y : Rat) (n2 d2 : List String) : M Value :=
+  if !(exactDouble x && exactDouble y) then fail .unsupported else
+  let guard (v : Rat) (u : List String × List String) : M Value :=
+    if exactDouble v then pure (mkNum v u.1 u.2) else fail .unsupported
   match op with
-  | .add => guard (a + b)
-  | .sub => guard (a - b)
-  | .mul => guard (a * b)
-  | .mod => if b == 0 then none else guard (a - b * ((a / b).floor : Int))
-  | .lt => some (.bool (a < b))
-  | .gt => some (.bool (a > b))
-  | .le => some (.bool (a ≤ b))
-  | .ge => some (.bool (a ≥ b))
-  | _ => none
+  | .mul => guard (x * y) (mulUnits n1 d1 n2 d2)
+  | .div =>
+    -- division by zero gives Infinity/NaN in grass: outside the model
+    if y == 0 then fail .unsupported
+    else if shortDyadic (x / y) then guard (x / y) (divUnits n1 d1 n2 d2) else fail .unsupported
+  | .add | .sub | .mod | .lt | .gt | .le | .ge =>
+    if !unitsComparable n1 d1 n2 d2 then fail .incompatibleUnits else
+    match op with
+    | .add => guard (x + y) (addUnits n1 d1 n2 d2)
+    | .sub => guard (x - y) (addUnits n1 d1 n2 d2)
+    | .mod => if y == 0 then fail .unsupported else guard (x - y * ((x / y).floor : Int)) (addUnits n1 d1 n2 d2)
+    | .lt => pure (.bool (x < y))
+    | .gt => pure (.bool (x > y))
+    | .le => pure (.bool (x ≤ y))
+    | .ge => pure (.bool (x ≥ y))
+    | _ => fail .unsupported
+  | _ => fail .unsupported
 
 /-- Strings longer than this are outside the model (keeps run-away concatenation cheap). -/
 def strCap : Nat := 4096
@@ -484,42 +614,38 @@ def mkStr (s : String) (q : Bool) : M Value :=
   if s.length > strCap then fail .unsupported else pure (.str s q)
 
 /-- Strict binary operators on evaluated operands (`and`/`or` are handled lazily by the caller). -/
-def binOp (op : BinOp) (a b : Value) : M Value :=
+def binOp (dev : Dev) (op : BinOp) (a b : Value) : M Value :=
   match op with
   | .eq => pure (.bool (a.eq b))
   | .ne => pure (.bool (!(a.eq b)))
+  | .and | .or => fail .unsupported
+  | _ =>
+  match a.asNum, b.asNum with
+  | some (x, n1, d1), some (y, n2, d2) => numBin op x n1 d1 y n2 d2
+  | _, _ =>
+  match op with
   | .add =>
     match a, b with
-    | .num x, .num y =>
-      match numOp .add x y with
-      | some v => pure v
-      | none => fail .unsupported
     | .str s q, _ =>
       match b with
       | .str t _ => mkStr (s ++ t) q
       | .map _ => fail .invalidCss
       | _ => do let t ← liftPrint b.toCss; mkStr (s ++ t) q
+    -- bin_op.rs:109: number + string prints the unit with `Display`, complex or not
+    | .dim x n d, .str t q =>
+      match fmtNum x with
+      | some s => mkStr (s ++ unitText n d ++ t) q
+      | none => fail .unsupported
+    | .null, .str t true =>
+      if dev.nullPlusQuotedKeepsQuotes then mkStr ("\"" ++ t ++ "\"") false else mkStr t true
     | _, .str t q =>
       match a with
       | .map _ => fail .invalidCss
       | .list .. => fail .unsupported
       | _ => do let s ← liftPrint a.toCss; mkStr (s ++ t) q
     | _, _ => fail .unsupported
-  | .sub | .mul | .mod =>
-    match a, b with
-    | .num x, .num y =>
-      match numOp op x y with
-      | some v => pure v
-      | none => fail .unsupported
-    | _, _ => fail .unsupported
-  | .lt | .gt | .le | .ge =>
-    match a, b with
-    | .num x, .num y =>
-      match numOp op x y with
-      | some v => pure v
-      | none => fail .unsupported
-    | _, _ => fail .undefinedOperation
-  | .and | .or => fail .unsupported
+  | .lt | .gt | .le | .ge => fail .undefinedOperation
+  | _ => fail .unsupported
 
 /-! ### argument binding -/
 
@@ -674,7 +800,7 @@ def builtin (name : String) (ev : Evaled) : Option (M Value) :=
   | "type-of", [v] =>
     some (pure (.str (match v with
       | .num _ => "number" | .str .. => "string" | .bool _ => "bool" | .null => "null"
-      | .list .. => "list" | .map _ => "map" | .arglist .. => "arglist") false))
+      | .list .. => "list" | .map _ => "map" | .arglist .. => "arglist" | .dim .. => "number") false))
   | "not", [v] => some (pure (.bool !v.truthy))
   | "list-separator", [v] =>
     some (pure (.str (match v with
@@ -684,6 +810,51 @@ def builtin (name : String) (ev : Evaled) : Option (M Value) :=
     some (do
       modifySt fun st => { st with kwRead := id :: st.kwRead }
       pure (.map (kw.map fun (k, v) => (.str k false, v))))
+  -- builtin/functions/math.rs:215 `divide`: the same `div` as the operator
+  | "math.div", [a, b] =>
+    some (match a.asNum, b.asNum with
+      | some (x, n1, d1), some (y, n2, d2) => numBin .div x n1 d1 y n2 d2
+      | _, _ => fail .unsupported)
+  -- builtin/functions/meta.rs:62 `unit`, :78 `unitless`, :87 `inspect`
+  | "unit", [v] =>
+    some (match v.asNum with
+      | some (_, n, d) => pure (.str (unitText n d) true)
+      | none => fail .notANumber)
+  | "unitless", [v] =>
+    some (match v.asNum with
+      | some (_, n, d) => pure (.bool (n.isEmpty && d.isEmpty))
+      | none => fail .notANumber)
+  | "inspect", [v] => some (do let s ← liftPrint v.inspect; mkStr s false)
+  | _, _ => none
+
+/-- `Identifier::from`: `_` and `-` are the same character in names. -/
+def normName (n : String) : String := n.map fun c => if c == '_' then '-' else c
+
+/-- Names of the built-in functions this model implements (all of them global functions of grass). -/
+def modelBuiltins : List String :=
+  ["length", "nth", "map-get", "type-of", "list-separator", "keywords", "unit", "unitless", "inspect",
+   "variable-exists", "global-variable-exists", "function-exists", "mixin-exists"]
+
+/-- The built-ins that look at the environment (builtin/functions/meta.rs:95 `variable_exists`,
+    :110 `global_variable_exists`, :145 `mixin_exists`, :176 `function_exists`; without `$module`).
+    `function-exists` of a name that is neither user-defined nor one of `modelBuiltins` is decided
+    (`false`) only for the generator's reserved prefix `nofn` (no grass built-in starts with it);
+    otherwise it is outside the model. -/
+def builtinEnv (ctx : Ctx) (name : String) (ev : Evaled) : Option (M Value) :=
+  if !ev.named.isEmpty then none else
+  match name, ev.pos with
+  | "variable-exists", [.str n _] =>
+    some (do let st ← getSt; pure (.bool (lookupVar st.heap ctx.env (normName n)).isSome))
+  | "global-variable-exists", [.str n _] =>
+    some (do let st ← getSt; pure (.bool (lookupVar st.heap ctx.env.getLast?.toList (normName n)).isSome))
+  | "mixin-exists", [.str n _] =>
+    some (do let st ← getSt; pure (.bool (lookupMixin st.heap ctx.env (normName n)).isSome))
+  | "function-exists", [.str n _] =>
+    some (do
+      let st ← getSt
+      if (lookupFn st.heap ctx.env (normName n)).isSome || modelBuiltins.contains (normName n) then pure (.bool true)
+      else if (normName n).startsWith "nofn" then pure (.bool false)
+      else fail .unsupported)
   | _, _ => none
 
 /-! ### one level of evaluation -/
@@ -691,6 +862,7 @@ def builtin (name : String) (ev : Evaled) : Option (M Value) :=
 def intOf (v : Value) : M Int :=
   match v with
   | .num q => if q.den == 1 then pure q.num else fail .notAnInteger
+  | .dim .. => fail .unsupported      -- `@for` over numbers with units: outside the model
   | _ => fail .notANumber
 
 /-- The values `@for` assigns, in order (`from` towards `to`, end point included for `through`). -/
@@ -698,18 +870,34 @@ def forRange (lo hi : Int) (inclusive : Bool) : List Int :=
   let n := (if lo ≤ hi then hi - lo else lo - hi).toNat + (if inclusive then 1 else 0)
   (List.range n).map fun (i : Nat) => if lo ≤ hi then lo + (i : Int) else lo - (i : Int)
 
+mutual
+/-- `Value::unquote` (value/mod.rs:251): strings lose their quotes, lists element-wise; every other
+    value (maps, ARGUMENT LISTS) is left alone. -/
+def Value.unquote : Value → Value
+  | .str s _ => .str s false
+  | .list es sep br => .list (unquoteList es) sep br
+  | v => v
+def unquoteList : List Value → List Value
+  | [] => []
+  | v :: vs => v.unquote :: unquoteList vs
+end
+
+/-- Text of one interpolated value (`serialize(expr, QuoteKind::None)`, visitor.rs:2935:
+    `expr.unquote().to_css_string()`).  A quoted string gives its text, numbers print with their
+    unit, null prints as nothing, lists print their (unquoted) elements; maps, `()` and numbers
+    with complex units are "not a valid CSS value". -/
+def interpText (v : Value) : Except PrintErr String :=
+  match v with
+  -- (the string case of `v.unquote.toCss`, spelled out)
+  | .str t _ => if plainTextU t then .ok t else .error .unsupported
+  | v => v.unquote.toCss
+
 def evalInterp (f : Expr → M Value) : List (String × Option Expr) → M String
   | [] => pure ""
   | (s, none) :: r => do let t ← evalInterp f r; pure (s ++ t)
   | (s, some e) :: r => do
     let v ← f e
-    let x ← liftPrint (match v with
-      | .str t _ => if plainText t then .ok t else .error .unsupported
-      -- strings nested in an interpolated list or map are unquoted too: outside the model
-      | .list .. => .error .unsupported
-      | .arglist .. => .error .unsupported
-      | .map _ => .error .unsupported
-      | v => v.toCss)
+    let x ← liftPrint (interpText v)
     let t ← evalInterp f r
     pure (s ++ x ++ t)
 
@@ -729,10 +917,11 @@ def exprF (r : Rec) (ctx : Ctx) : Expr → M Value
   | .bin op a b => do
     let x ← r.expr ctx a
     let y ← r.expr ctx b
-    binOp op x y
+    binOp ctx.dev op x y
   | .neg a => do
     match ← r.expr ctx a with
     | .num q => pure (.num (-q))
+    | .dim q n d => pure (.dim (-q) n d)       -- value/mod.rs `unary_neg`: the unit stays
     | _ => fail .unsupported
   | .not a => do
     let x ← r.expr ctx a
@@ -768,7 +957,10 @@ def exprF (r : Rec) (ctx : Ctx) : Expr → M Value
     | none =>
       match builtin f ev with
       | some m => m
-      | none => fail .unsupported
+      | none =>
+        match builtinEnv ctx f ev with
+        | some m => m
+        | none => fail .unsupported
 
 def selText (sel : List String) : String := " ".intercalate sel.reverse
 
@@ -807,14 +999,14 @@ def asList : Value → List Value
     printed (visitor.rs:1067, :1632). -/
 def messageText (dev : Dev) (inspect : Bool) (v : Value) : Except PrintErr String :=
   match v with
-  | .str s _ =>
+  | .str s q =>
     if dev.messageKeepsQuotes then (if inspect then v.inspect else v.toCss)
-    else if plainText s then .ok s else .error .unsupported
+    else if printable s q then .ok s else .error .unsupported
   | _ => if inspect then v.inspect else v.toCss
 
-def stmtF (r : Rec) (ctx : Ctx) : Stmt → M (Option Value)
-  | .decl prop e => do
-    if ctx.sel.isEmpty then fail .declOutsideRule else
+/-- `visit_style` (visitor.rs:3066) after the name is known: evaluate the value, drop a blank one,
+    record the declaration (its CSS text is produced when the stylesheet is serialised). -/
+def emitDecl (r : Rec) (ctx : Ctx) (prop : String) (e : Expr) : M (Option Value) := do
     let v ← r.expr ctx e
     if v.nestedEmptyArglist then fail .unsupported else
     let emptyList := match v with | .list [] _ false => true | .map [] => true | .arglist [] _ _ _ => true | _ => false
@@ -827,6 +1019,15 @@ def stmtF (r : Rec) (ctx : Ctx) : Stmt → M (Option Value)
       | .error .unsupported => fail .unsupported)
     modifySt fun st => { st with css := st.css.push (selText ctx.sel, prop, txt) }
     pure none
+
+def stmtF (r : Rec) (ctx : Ctx) : Stmt → M (Option Value)
+  | .decl prop e =>
+    if ctx.sel.isEmpty then fail .declOutsideRule else emitDecl r ctx prop e
+  | .declI parts e =>
+    -- the name's interpolation is evaluated before the value (visitor.rs:3080)
+    if ctx.sel.isEmpty then fail .declOutsideRule else do
+    let prop ← evalInterp (r.expr ctx) parts
+    emitDecl r ctx prop.trimAscii.toString e
   | .rule sel body =>
     inScope ctx false fun ctx' => r.block { ctx' with sel := sel :: ctx.sel } body
   | .var n e glob dflt => do
@@ -968,6 +1169,7 @@ def evalProgram (dev : Dev) (fuel : Nat) (prog : List Stmt) : Outcome :=
 mutual
 def stmtStatic (inFn inMixin inCallableOrCtl : Bool) : Stmt → Bool
   | .decl _ _ => !inFn
+  | .declI _ _ => !inFn
   | .rule _ body => !inFn && blockStatic inFn inMixin inCallableOrCtl body
   | .var .. => true
   | .ifs cl els => clausesStatic inFn inMixin cl && (match els with
@@ -1051,6 +1253,7 @@ def pBinOp : P BinOp := fun ts => do
   | "mod" => some (.mod, ts) | "eq" => some (.eq, ts) | "ne" => some (.ne, ts)
   | "lt" => some (.lt, ts) | "gt" => some (.gt, ts) | "le" => some (.le, ts)
   | "ge" => some (.ge, ts) | "and" => some (.and, ts) | "or" => some (.or, ts)
+  | "div" => some (.div, ts)
   | _ => none
 
 def pPair {α β : Type} (p : P α) (q : P β) : P (α × β) := fun ts => do
@@ -1069,6 +1272,12 @@ def pExpr : Nat → P Expr
       let (b, ts) ← pNat ts
       let n ← a.toInt?
       if b == 0 then none else some (.lit (.num (mkRat n b)), ts)
+    | "D" => do
+      let (a, ts) ← pTok ts
+      let (b, ts) ← pNat ts
+      let (u, ts) ← pTok ts
+      let n ← a.toInt?
+      if b == 0 || !knownUnits.contains u then none else some (.lit (.dim (mkRat n b) [u] []), ts)
     | "Q" => do let (s, ts) ← pHex ts; some (.lit (.str s true), ts)
     | "U" => do let (s, ts) ← pHex ts; some (.lit (.str s false), ts)
     | "T" => some (.lit (.bool true), ts)
@@ -1129,6 +1338,10 @@ def pStmt : Nat → P Stmt
       let (p, ts) ← pHex ts
       let (v, ts) ← e ts
       some (.decl p v, ts)
+    | "DECLI" => do
+      let (parts, ts) ← pCounted (pPair pHex (pOpt e)) ts
+      let (v, ts) ← e ts
+      some (.declI parts v, ts)
     | "RULE" => do
       let (s, ts) ← pHex ts
       let (b, ts) ← blk ts
@@ -1191,6 +1404,7 @@ def errStr : Err → String
   | .declOutsideRule => "decl-outside-rule" | .noContentAccepted => "no-content-accepted"
   | .duplicateKey => "duplicate-key" | .indexOutOfBounds => "index-out-of-bounds"
   | .staticError => "static-error" | .unsupported => "unsupported"
+  | .incompatibleUnits => "incompatible-units"
 
 def stStr (st : St) : String :=
   let css := st.css.toList.map fun (s, p, v) =>
@@ -1204,9 +1418,11 @@ def outcomeStr : Outcome → String
   | .failed e st => "ok err " ++ errStr e ++ " | " ++ stStr st
   | .outOfFuel => "ok out-of-fuel"
 
-/-- `e` = emptyListDeclDropped, `r` = restAlwaysComma, `q` = messageKeepsQuotes; `-` = the specification. -/
+/-- `e` = emptyListDeclDropped, `r` = restAlwaysComma, `q` = messageKeepsQuotes,
+    `n` = nullPlusQuotedKeepsQuotes; `-` = the specification. -/
 def parseDev (s : String) : Dev :=
-  { emptyListDeclDropped := s.contains 'e', restAlwaysComma := s.contains 'r', messageKeepsQuotes := s.contains 'q' }
+  { emptyListDeclDropped := s.contains 'e', restAlwaysComma := s.contains 'r', messageKeepsQuotes := s.contains 'q',
+    nullPlusQuotedKeepsQuotes := s.contains 'n' }
 
 def handle : List String → String
   | "run" :: fuel :: dev :: ts =>
@@ -1217,6 +1433,8 @@ def handle : List String → String
       | some (prog, []) =>
         -- a declaration directly at the top level is not even parsed as a declaration
         if prog.any (fun s => match s with | .decl .. => true | _ => false) then "ok err static-error | - | -" else
+        -- … and what an interpolated name at the top level is parsed as is outside the model
+        if prog.any (fun s => match s with | .declI .. => true | _ => false) then "unsupported" else
         if !blockStatic false false false prog then "ok err static-error | - | -" else
         outcomeStr (evalProgram (parseDev dev) fuel prog)
       | _ => "bad-op"
